@@ -62,11 +62,16 @@ Subcodes(fault) ==
     [] fault = "value"  -> {6}
     [] fault = "syntax" -> {11, 5}
 
-(* The set of (class, subcode) outcomes that answer a fault actually present *)
+(* The set of (class, subcode) outcomes that answer a fault actually present.
+   A flag conflict always calls for treat-as-withdraw (RFC 7606 section 3.c:
+   the stronger approach wins), whatever else is wrong with the value; the
+   subcode may name either fault.                                           *)
 ErrorOutcomes(t, f, v) ==
-  (IF FlagsOK(t, f) THEN {} ELSE {<<"taw", s>> : s \in Subcodes("flags")})
-  \cup (IF ValueFault(t, v) = "none" THEN {}
-        ELSE {<<Row(t).class, s>> : s \in Subcodes(ValueFault(t, v))})
+  LET vf == ValueFault(t, v) IN
+  IF ~FlagsOK(t, f)
+    THEN {<<"taw", s>> : s \in Subcodes("flags") \cup (IF vf = "none" THEN {} ELSE Subcodes(vf))}
+  ELSE IF vf = "none" THEN {}
+  ELSE {<<Row(t).class, s>> : s \in Subcodes(vf)}
 
 MustSucceed(t, f, v) == ErrorOutcomes(t, f, v) = {}
 
